@@ -512,6 +512,20 @@ def call_shape_phase(chk, rng, n):
     return stats
 
 
+ALLF = {"obs", "cur", "vars", "used", "hooks", "join", "content", "choices", "pid", "render", "input",
+        "can_undo", "can_redo", "depth", "length"}
+RELEVANT = {
+    "C02": {"choices", "used", "obs", "can_undo", "can_redo", "length"},
+    "C03": {"vars", "content", "choices", "pid", "cur", "length"},
+    "C04": ALLF,
+    "C07": {"vars", "depth", "obs", "content", "length"},
+    "C08": {"content", "choices", "pid", "cur", "obs", "render", "input", "length"},
+    "C09": {"hooks", "vars", "content", "length"},
+    "C10": {"join", "choices", "content", "pid", "cur", "length"},
+    "C15": {"obs", "depth", "content", "vars", "choices", "length"},
+}
+
+
 PINNED_F02B = """:: Start
 ~ a = 0
 [Start]
@@ -632,9 +646,25 @@ def run_engine_property(pid: str, tier: str, seed: int, design_note: str) -> int
     for b in bad:
         if isinstance(b, int):
             sub, src, recs = metas[b]
-            chk.disagree("engine", "Engine/Engine.v and BardEngine differ on a history",
-                         {"subseed": sub, "story_source": src, "ops": [x["op"] for x in recs[1:]],
-                          "obs": [x["obs"] for x in recs[1:]], "model_first_difference": shown.get(b)})
+            text = shown.get(b) or ""
+            m = re.match(r"\(Some (\d+),\s*\[([^\]]*)\]", text)
+            step = int(m.group(1)) if m else None
+            fields = re.findall(r'"([a-z_]+)"', m.group(2)) if m else []
+            replay = {"subseed": sub, "story_source": src, "ops": [x["op"] for x in recs[1:]],
+                      "obs": [x["obs"] for x in recs[1:]], "first_differing_step": step,
+                      "differing_fields": fields, "model_says": text[:3000],
+                      "implementation_view": ({k: v for k, v in recs[step]["view"].items() if k != "raw_content"}
+                                              if step is not None and step < len(recs) and recs[step]["view"] else None)}
+            rel = RELEVANT.get(pid, set())
+            hit = sorted(set(fields) & rel)
+            if hit:
+                # the property is a theorem of the model; on this history the implementation departs from the
+                # model in fields the property speaks about: a concrete failing history
+                chk.report("departs-from-proved-model:" + ",".join(hit),
+                           f"at step {step} the implementation's {hit} differ from the model for which {pid} is proved",
+                           replay)
+            else:
+                chk.disagree("engine", "Engine/Engine.v and BardEngine differ on a history", replay)
         else:
             chk.disagree("engine-coqc", "a case shard failed to evaluate", {"log": log[-2000:]})
     chk.cov["programs"] = len(terms)
